@@ -1014,47 +1014,6 @@ def check_network(net, acc, P):
         acc.cnt["n_" + cls] += len(getattr(net, cls))
 
 
-def graph_item(item):
-    """One (map, options[, variant]) -> accumulated result dict (picklable)."""
-    rel, opts, variant, tier = item
-    P = TIERS[tier]
-    stem = pathlib.Path(rel).stem
-    label = stem if variant is None else f"{stem}~del-{variant['tag']}"
-    case = {"part": "graph", "map": rel, "opts": opts, "variant": variant, "tier": tier}
-    acc = Acc(label, case)
-    src = MAPS / rel
-    t0 = time.time()
-    tmpdir = None
-    try:
-        if variant is not None:
-            tmpdir = SCRATCH / f"var-{os.getpid()}-{uuid.uuid4().hex[:8]}"
-            tmpdir.mkdir(parents=True)
-            path = tmpdir / f"{stem}.xodr"
-            write_variant(src, variant["index"], path)
-        else:
-            path = src
-        try:
-            net = build(path, opts)
-        except Exception as e:
-            if variant is None:
-                # a shipped map that does not build with a documented option combination
-                acc.check("build", f"fails-{type(e).__name__}", False, f"Network.fromFile({rel}, **{opts}) raised {type(e).__name__}: {str(e)[:300]}")
-                r = acc.out()
-                r.update(built=False, parse_s=time.time() - t0, total_s=time.time() - t0, item=(rel, opts, variant))
-                return r
-            r = acc.out()
-            r.update(built=False, unbuilt=type(e).__name__, parse_s=time.time() - t0, total_s=time.time() - t0, item=(rel, opts, variant))
-            return r
-        t1 = time.time()
-        check_network(net, acc, P)
-    finally:
-        if tmpdir is not None:
-            shutil.rmtree(tmpdir, ignore_errors=True)
-    r = acc.out()
-    r.update(built=True, parse_s=t1 - t0, total_s=time.time() - t0, item=(rel, opts, variant))
-    return r
-
-
 # --------------------------------------------------------------------------------------
 # equivalence of two networks (cached vs parsed)
 # --------------------------------------------------------------------------------------
@@ -1161,17 +1120,36 @@ def fp_diff(ref, got):
 LOOKUPS = ("elementAt", "roadAt", "laneAt", "laneSectionAt", "laneGroupAt", "intersectionAt", "sidewalkAt", "shoulderAt")
 
 
-def lookup_answers(net, probes):
+def lookup_answers(net, probes, guard=False):
+    """Answers of every lookup at every probe.  guard=True (networks that came out of a
+    possibly damaged cache): an exception inside a lookup becomes the answer."""
     from scenic.core.vectors import Vector
 
     out = []
     for x, y, *_ in probes:
         v = Vector(x, y)
-        row = [uid(getattr(net, nm)(v)) for nm in LOOKUPS]
-        row.append(tuple(d.yaw for d in net.nominalDirectionsAt(v)))
-        row.append(net.roadDirection[v].yaw)
+        try:
+            row = [uid(getattr(net, nm)(v)) for nm in LOOKUPS]
+            row.append(tuple(d.yaw for d in net.nominalDirectionsAt(v)))
+            row.append(net.roadDirection[v].yaw)
+        except Exception as e:
+            if not guard:
+                raise
+            row = [f"raised {type(e).__name__}: {str(e)[:120]}"] * (len(LOOKUPS) + 2)
         out.append(row)
     return out
+
+
+def net_diff(ref, key, net):
+    """First difference between a network and the reference for `key`, or None."""
+    try:
+        dd = fp_diff(ref["fps"][key], fingerprint(net))
+    except Exception as e:
+        return ("structure-raises", f"inspecting the returned network raised {type(e).__name__}: {str(e)[:160]}")
+    if dd is None:
+        a = answers_diff(ref["answers"][key], lookup_answers(net, ref["probes"][key], guard=True), ref["probes"][key])
+        dd = ("lookup", a) if a else None
+    return dd
 
 
 def answers_diff(ref, got, probes):
@@ -1331,11 +1309,10 @@ class Rig:
                     self.report(f"cache:valid-cache-ignored:{cls}", f"{op}: a cache written for exactly this map and options exists, yet the parser ran {parsed}x", trace)
                 else:
                     self.report(f"cache:parser-ran-{parsed}-times:{cls}", f"{op}: parser ran {parsed} times", trace)
-            dd = fp_diff(self.ref["fps"][refkey], fingerprint(net))
-            if dd is None:
-                a = answers_diff(self.ref["answers"][refkey], lookup_answers(net, self.ref["probes"][refkey]), self.ref["probes"][refkey])
-                dd = ("lookup", a) if a else None
-            if dd is not None:
+            dd = net_diff(self.ref, refkey, net)
+            if dd is not None and cls == "soft-corrupt" and parsed == 0:
+                self.report("cache:corrupt-payload-silently-used", f"{op}: a cache with a damaged payload byte was loaded without any error and the returned network differs from a fresh parse ({dd[0]}): {dd[1]}", trace)
+            elif dd is not None:
                 self.report(f"cache:network-differs-from-fresh-parse:{cls}:{dd[0]}", f"{op} ({cls} cache, parser ran {parsed}x) returned a network that differs from a fresh parse of the current map with options {cm.OPTS[optname]}: {dd[1]}", trace)
             else:
                 self.tally["equivalent_loads"] += 1
@@ -1403,8 +1380,47 @@ def cache_item(item):
         rig.close()
 
 
+def judge_damaged_cache(rel, mp, ca, data, pos, out, viol):
+    """Load the map next to a damaged cache file `data`; classify and judge the outcome."""
+    import base64
+
+    from scenic.domains.driving.roads import Network
+
+    ref = REFS[rel]
+    ca.write_bytes(data)
+    zone = "header" if pos < cm.HEADER else "payload"
+    case = {"part": "sweep", "map": rel, "pos": pos, "cache_b64": base64.b64encode(data).decode()}
+    n0 = _PARSES[0]
+    try:
+        with warnings.catch_warnings():
+            warnings.simplefilter("ignore")
+            net = Network.fromFile(str(mp), useCache=True, writeCache=False, **cm.OPTS["A"])
+    except Exception as e:
+        out[f"{zone}:raised:{type(e).__name__}"] += 1
+        if not isinstance(e, (pickle.UnpicklingError, Network.DigestMismatchError)):
+            viol.append((f"cache:corrupt-byte-crashes-load:{zone}:{type(e).__name__}", f"cache of {rel} with byte {pos} incremented: fromFile raised {type(e).__name__}: {str(e)[:200]}", case))
+        return
+    parsed = _PARSES[0] - n0
+    if parsed:
+        # parsed afresh: deterministic, the structural comparison suffices
+        try:
+            dd = fp_diff(ref["fps"][(0, "A")], fingerprint(net))
+        except Exception as e:
+            dd = ("structure-raises", repr(e)[:160])
+    else:
+        dd = net_diff(ref, (0, "A"), net)
+    out[f"{zone}:{'parsed' if parsed else 'cache-used'}:{'equivalent' if dd is None else 'DIFFERENT-' + dd[0]}"] += 1
+    if dd is not None:
+        sig = "cache:corrupt-payload-silently-used" if zone == "payload" and not parsed else f"cache:damaged-{zone}-wrong-network"
+        viol.append((sig, f"cache of {rel} ({len(data)} bytes) with byte {pos} incremented by one: fromFile returned, without any error, a network that is not equivalent to a fresh parse ({dd[0]}): {dd[1]}", case))
+    elif zone == "header" and parsed == 0:
+        viol.append(("cache:corrupt-header-accepted", f"cache of {rel} with header byte {pos} incremented was used", case))
+
+
 def sweep_item(item):
-    """Single-byte corruption sweep: positions[i] of a valid cache incremented by one."""
+    """Single-byte corruption sweep: each position of a valid cache incremented by one.
+    (The cache bytes differ from run to run -- cached id()-based hashes are pickled -- so
+    the failing case carries the damaged file itself for the replay.)"""
     rel, positions = item
     from scenic.domains.driving.roads import Network
 
@@ -1416,35 +1432,402 @@ def sweep_item(item):
     try:
         mp, ca = d / "m.xodr", d / "m.snet"
         mp.write_bytes(ref["contents"][(0, 0)])
-        Network.fromFile(str(mp), **cm.OPTS["A"])
+        with warnings.catch_warnings():
+            warnings.simplefilter("ignore")
+            Network.fromFile(str(mp), **cm.OPTS["A"])
         good = ca.read_bytes()
+        n = 0
         for pos in positions:
             if pos >= len(good):
                 continue
             b = bytearray(good)
             b[pos] = (b[pos] + 1) % 256
-            ca.write_bytes(bytes(b))
-            n0 = _PARSES[0]
-            zone = "header" if pos < cm.HEADER else "payload"
-            try:
-                with warnings.catch_warnings():
-                    warnings.simplefilter("ignore")
-                    net = Network.fromFile(str(mp), useCache=True, writeCache=False, **cm.OPTS["A"])
-            except Exception as e:
-                out[f"{zone}:raised:{type(e).__name__}"] += 1
-                if not isinstance(e, (pickle.UnpicklingError, Network.DigestMismatchError)):
-                    viol.append((f"cache:corrupt-byte-crashes-load:{zone}:{type(e).__name__}", f"cache of {rel} with byte {pos} incremented: fromFile raised {type(e).__name__}: {str(e)[:200]}", {"part": "sweep", "map": rel, "pos": pos}))
-                continue
-            parsed = _PARSES[0] - n0
-            dd = fp_diff(ref["fps"][(0, "A")], fingerprint(net))
-            if dd is None:
-                a = answers_diff(ref["answers"][(0, "A")], lookup_answers(net, ref["probes"][(0, "A")]), ref["probes"][(0, "A")])
-                dd = ("lookup", a) if a else None
-            out[f"{zone}:{'parsed' if parsed else 'cache-used'}:{'equivalent' if dd is None else 'DIFFERENT'}"] += 1
-            if dd is not None:
-                viol.append((f"cache:corrupt-byte-silently-used:{zone}:{dd[0]}", f"cache of {rel} with byte {pos} incremented: fromFile returned a network different from a fresh parse without any error: {dd[1]}", {"part": "sweep", "map": rel, "pos": pos}))
-            elif zone == "header" and parsed == 0:
-                viol.append(("cache:corrupt-header-accepted", f"cache of {rel} with header byte {pos} incremented was used", {"part": "sweep", "map": rel, "pos": pos}))
-        return dict(kind="sweep", outcomes=dict(out), viol=viol[:6], nviol=len(viol), n=len(positions), size=len(good))
+            judge_damaged_cache(rel, mp, ca, bytes(b), pos, out, viol)
+            n += 1
+        seen = collections.Counter()
+        keep = []
+        for v in viol:
+            seen[v[0]] += 1
+            if seen[v[0]] <= 2:
+                keep.append(v)
+        return dict(kind="sweep", outcomes=dict(out), viol=keep, nviol=len(viol), n=n, size=len(good))
     finally:
         shutil.rmtree(d, ignore_errors=True)
+
+
+# --------------------------------------------------------------------------------------
+# cached-vs-parsed equivalence on the full probe lattice of a map (through fromFile)
+# --------------------------------------------------------------------------------------
+def roundtrip(rel, opts, net, probes, answers, acc):
+    from scenic.domains.driving.roads import Network
+
+    d = pathlib.Path(RUNDIR[0]) / f"rt-{os.getpid()}-{uuid.uuid4().hex[:8]}"
+    d.mkdir(parents=True)
+    try:
+        mp = d / "m.xodr"
+        shutil.copyfile(MAPS / rel, mp)
+        with warnings.catch_warnings():
+            warnings.simplefilter("ignore")
+            n0 = _PARSES[0]
+            Network.fromFile(str(mp), **opts)  # parses and writes the cache
+            n1 = _PARSES[0]
+            cached = Network.fromFile(str(mp), **opts)
+            n2 = _PARSES[0]
+        acc.check("cache", "first-load-parses", n1 - n0 == 1, f"first load of a fresh copy ran the parser {n1 - n0}x")
+        acc.check("cache", "second-load-uses-cache", n2 - n1 == 0, f"second load with identical map and options ran the parser {n2 - n1}x although a cache was just written")
+        dd = fp_diff(fingerprint(net), fingerprint(cached))
+        acc.check("cache", "cached-equals-parsed-structure", dd is None, lambda: f"network loaded from the cache differs from the parsed one ({dd[0]}): {dd[1]}")
+        rows = [[a[nm] for nm in LOOKUPS] + [a["nominalDirectionsAt"], a["roadDirection"]] for a in answers]
+        a2 = answers_diff(rows, lookup_answers(cached, probes, guard=True), probes)
+        acc.check("cache", "cached-equals-parsed-lookups", a2 is None, lambda: f"lookup on the network loaded from the cache differs: {a2}")
+        acc.cnt["roundtrip_probes"] += len(probes)
+    finally:
+        shutil.rmtree(d, ignore_errors=True)
+
+
+def graph_item_rt(item):
+    """graph_item + cached-vs-parsed round trip (same probe lattice)."""
+    rel, opts, variant, tier, dense, rt = item
+    P = dict(TIERS[tier])
+    if not dense:
+        P.update(TIERS["quick"], depth=P["depth"])
+    stem = pathlib.Path(rel).stem
+    label = stem if variant is None else f"{stem}~del-{variant['tag']}"
+    case = {"part": "graph", "map": rel, "opts": opts, "variant": variant, "tier": tier, "dense": dense, "rt": rt}
+    acc = Acc(label, case)
+    src = MAPS / rel
+    t0 = time.time()
+    tmpdir = None
+    res = dict(kind="graph", item=(rel, opts, variant), built=False, unbuilt=None)
+    try:
+        if variant is not None:
+            tmpdir = pathlib.Path(RUNDIR[0]) / f"var-{os.getpid()}-{uuid.uuid4().hex[:8]}"
+            tmpdir.mkdir(parents=True)
+            path = tmpdir / f"{stem}.xodr"
+            write_variant(src, variant["index"], path)
+        else:
+            path = src
+        try:
+            net = build(path, opts)
+        except Exception as e:
+            if variant is None:
+                # a shipped map + documented options: the failing construction-time
+                # assertion *is* an inconsistency of the network being built
+                import traceback
+
+                tb = traceback.extract_tb(e.__traceback__)
+                where = f"{pathlib.Path(tb[-1].filename).name}:{tb[-1].lineno} `{tb[-1].line}`" if tb else "?"
+                acc.check("build", f"fails-{type(e).__name__}", False, f"Network.fromFile({rel}, **{opts}) raised {type(e).__name__} at {where}: {str(e)[:200]}")
+            else:
+                res["unbuilt"] = type(e).__name__
+            res.update(acc.out(), parse_s=time.time() - t0, total_s=time.time() - t0)
+            return res
+        t1 = time.time()
+        check_links(net, acc)
+        check_containment(net, acc)
+        probes = make_probes(net, P)
+        orc = Oracle(net, probes)
+        answers = check_lookups(net, acc, probes, orc)
+        nseg = check_tangency(net, acc, lambda pr: Oracle(net, pr), P)
+        acc.cnt["elements"] += len(net.elements)
+        acc.cnt["probes"] += len(probes) + nseg
+        for cls in ("roads", "connectingRoads", "laneGroups", "lanes", "laneSections", "intersections", "sidewalks", "shoulders"):
+            acc.cnt["n_" + cls] += len(getattr(net, cls))
+        if rt and variant is None:
+            roundtrip(rel, opts, net, probes, answers, acc)
+        res.update(acc.out(), built=True, parse_s=t1 - t0, total_s=time.time() - t0)
+        return res
+    finally:
+        if tmpdir is not None:
+            shutil.rmtree(tmpdir, ignore_errors=True)
+
+
+def work(item):
+    kind = item[0]
+    if kind == "graph":
+        return graph_item_rt(item[1:])
+    if kind == "cache":
+        return cache_item(item[1:])
+    if kind == "sweep":
+        return sweep_item(item[1:])
+    raise HarnessError(f"unknown work item {kind}")
+
+
+REQUIRED_RELATIONS = (
+    "linkage:element-uid-index",
+    "linkage:group-road",
+    "linkage:lane-group",
+    "linkage:lane-road",
+    "linkage:section-lane",
+    "linkage:section-group",
+    "linkage:section-road",
+    "linkage:section-isForward",
+    "linkage:lane-section-chain",
+    "linkage:road-section-chain",
+    "linkage:opposite-group",
+    "linkage:laneToLeft-reciprocal",
+    "linkage:laneToRight-reciprocal",
+    "linkage:lane-adjacent-symmetric",
+    "linkage:maneuver-startLane",
+    "linkage:maneuver-end-is-connecting-successor",
+    "linkage:maneuver-start-is-connecting-predecessor",
+    "linkage:maneuver-start-successor",
+    "linkage:incoming-successor-connecting",
+    "linkage:outgoing-are-maneuver-ends",
+    "linkage:intersection-road-backlink",
+    "linkage:road-intersection",
+    "linkage:connecting-lane-predecessor",
+    "linkage:link-target-is-element",
+    "geometry:laneToLeft-side",
+    "geometry:laneToRight-side",
+    "geometry:isForward-vs-road-direction",
+    "lookup:elementAt-contains-probe",
+    "lookup:roadAt-contains-probe",
+    "lookup:laneAt-contains-probe",
+    "lookup:intersectionAt-contains-probe",
+    "lookup:elementAt-contains-probe-within-tolerance",
+    "lookup:elementAt-priority-order",
+    "lookup:laneSectionAt-contains-probe",
+    "lookup:laneGroupAt-contains-probe",
+    "lookup:findPointIn-first-of-given-order",
+    "lookup:roadDirection-among-nominalDirections",
+    "containment:LaneSection-inside-lane",
+    "containment:Lane-inside-group",
+    "containment:LaneGroup-inside-road",
+    "containment:connecting-lane-inside-intersection",
+    "coverage:drivable-point-found-by-lookups",
+    "tangency:lane.orientation",
+    "tangency:roadDirection",
+    "tangency:nominalDirectionsAt-in-intersection",
+    "cache:second-load-uses-cache",
+    "cache:cached-equals-parsed-structure",
+    "cache:cached-equals-parsed-lookups",
+)
+
+
+def plan(tier, maps):
+    P = TIERS[tier]
+    items = []
+    if tier == "quick":
+        sel = maps[: P["n_maps"]] + [m for m in QUICK_EXTRA if m in maps and m not in maps[: P["n_maps"]]]
+        for rel in sel:
+            items.append(("graph", rel, {}, None, tier, False, True))
+    else:
+        for k, opts in enumerate(option_combos(tier)):
+            for rel in maps:
+                items.append(("graph", rel, opts, None, tier, k == 0, k == 0 or rel in maps[:8]))
+        for rel in maps[:N_VARIANT_MAPS]:
+            for index, tag in variant_targets(MAPS / rel):
+                items.append(("graph", rel, {}, {"index": index, "tag": tag}, tier, False, False))
+    # biggest first (better packing of the pool)
+    size = {rel: (MAPS / rel).stat().st_size for rel in maps}
+    items.sort(key=lambda it: -size[it[1]])
+    cache_items = [("cache", CACHE_MAP, [a, b], P["depth"]) for a in cm.ALPHABET for b in cm.ALPHABET]
+    return items, cache_items
+
+
+def run(ctx):
+    maps, empty = list_maps()
+    if len(maps) < 10:
+        raise HarnessError(f"only {len(maps)} non-empty maps under {MAPS}")
+    P = TIERS[ctx.tier]
+    rundir = SCRATCH / f"run-{os.getpid()}-{uuid.uuid4().hex[:8]}"
+    rundir.mkdir(parents=True)
+    RUNDIR[0] = str(rundir)
+    try:
+        _run(ctx, maps, empty, P, rundir)
+    finally:
+        shutil.rmtree(rundir, ignore_errors=True)
+        RUNDIR[0] = None
+
+
+def _run(ctx, maps, empty, P, rundir):
+    install_parse_counter()
+    t0 = time.time()
+    prepare_refs(CACHE_MAP, rundir)
+    prepare_refs(SWEEP_MAP, rundir)
+    t_refs = time.time() - t0
+    graph_items, cache_items = plan(ctx.tier, maps)
+
+    # size of the sweep: one valid cache of the sweep map
+    from scenic.domains.driving.roads import Network
+
+    d = rundir / "size"
+    d.mkdir()
+    (d / "m.xodr").write_bytes(REFS[SWEEP_MAP]["contents"][(0, 0)])
+    with warnings.catch_warnings():
+        warnings.simplefilter("ignore")
+        Network.fromFile(str(d / "m.xodr"), **cm.OPTS["A"])
+    size = (d / "m.snet").stat().st_size
+    shutil.rmtree(d)
+    positions = ctx.rotate(list(range(0, size + 64, P["sweep_stride"])))
+    chunk = max(1, len(positions) // 48)
+    sweep_items = [("sweep", SWEEP_MAP, positions[i : i + chunk]) for i in range(0, len(positions), chunk)]
+
+    # interleave: graph items (big first), cache subtrees, sweep chunks
+    items = ctx.rotate(graph_items) + ctx.rotate(cache_items) + sweep_items
+    # big graph items first regardless of rotation (pool packing); rotation changes ties
+    rel_total, cnt_total = collections.Counter(), collections.Counter()
+    trans, tally, sweep_out = set(), collections.Counter(), collections.Counter()
+    traces = 0
+    per_map = {}
+    unbuilt = collections.Counter()
+    variants_built = variants_total = 0
+    one_sided = {}
+    worst_excess = worst_tan = 0.0
+    samples = []
+    nets = 0
+    cache_secs = 0.0
+    for r in ctx.pmap(work, items, chunksize=1):
+        if r["kind"] == "graph":
+            rel, opts, variant = r["item"]
+            if variant is not None:
+                variants_total += 1
+                if not r["built"]:
+                    unbuilt[f"{variant['tag']}:{r['unbuilt']}"] += 1
+                else:
+                    variants_built += 1
+            if r["built"]:
+                nets += 1
+            rel_total.update(r["rel"])
+            cnt_total.update(r["cnt"])
+            for sig, desc, case in r["viol"]:
+                ctx.violation(sig, desc, case)
+            if variant is None:
+                pm = per_map.setdefault(rel, dict(parse_s=[], total_s=[], elements=r["cnt"].get("elements", 0)))
+                pm["parse_s"].append(round(r["parse_s"], 2))
+                pm["total_s"].append(round(r["total_s"], 2))
+                if r["stats"].get("one_sided_links"):
+                    one_sided[rel] = r["stats"]["one_sided_links"][:6]
+            worst_excess = max(worst_excess, float(r["stats"].get("max_child_vertex_excess", 0.0)) / max(1e-12, float(opts.get("tolerance", 0.05))))
+            worst_tan = max(worst_tan, float(r["stats"].get("max_tangent_error", 0.0)))
+            if len(samples) < 3 and r["built"] and variant is None:
+                samples.append({"map": rel, "options": opts, "elements": r["cnt"].get("elements"), "probes": r["cnt"].get("probes"), "links_and_lookups_judged": sum(r["rel"].values())})
+        elif r["kind"] == "cache":
+            traces += r["traces"]
+            trans |= r["trans"]
+            tally.update(r["tally"])
+            cache_secs += r["secs"]
+            for sig, desc, case in r["viol"]:
+                ctx.violation(sig, desc, case)
+        else:
+            sweep_out.update(r["outcomes"])
+            for sig, desc, case in r["viol"]:
+                ctx.violation(sig, desc, case)
+    # the prefixes themselves (length 1) are validated while replaying the prefix of each item
+    traces += len(cm.ALPHABET)
+    states = {cm.INITIAL} | {t[0] for t in trans} | {t[2] for t in trans}
+    model_states, model_trans = cm.reachable(P["depth"])
+
+    # ---- vacuity guards ----
+    missing = [k for k in REQUIRED_RELATIONS if rel_total.get(k, 0) == 0]
+    if missing:
+        raise HarnessError(f"vacuous: no link/lookup judged for relation kinds {missing}")
+    if cnt_total.get("elementAt_priority_discriminating", 0) == 0:
+        raise HarnessError("vacuous: no probe within tolerance of two top-level element classes")
+    used = sum(v for k, v in tally.items() if k.endswith(":cache-used"))
+    ignored = sum(v for k, v in tally.items() if k.endswith(":parsed") and not k.startswith("load:bypass"))
+    if used == 0 or ignored == 0:
+        raise HarnessError(f"vacuous cache exploration: cache used {used}x, ignored {ignored}x")
+    for cls in ("absent", "valid", "stale-map", "stale-options", "stale-map+options", "hard-corrupt", "soft-corrupt", "bypass"):
+        if not any(k.startswith(f"load:{cls}:") for k in tally):
+            raise HarnessError(f"vacuous cache exploration: no load with a {cls} cache")
+    if not states <= model_states or not trans <= model_trans:
+        raise HarnessError("implementation-side exploration left the model's reachable graph")
+    if ctx.tier == "thorough" and variants_built == 0:
+        raise HarnessError("vacuous: no deletion variant built")
+
+    evaluations = sum(rel_total.values()) + sum(v for k, v in tally.items() if k.startswith("load:")) + sum(sweep_out.values())
+    ctx.cov.update(
+        evaluations=evaluations,
+        distinct_nontrivial=sum(1 for k, v in rel_total.items() if v > 0) + sum(1 for k in tally if k.startswith("load:")),
+        rule="(A) every element and every link of every network built from the tier's (map, options[, single XML element deleted]) "
+        "list is visited once per relation kind; lookups are asked at a deterministic probe lattice per element (centroids of up to k "
+        "triangles of the constrained Delaunay triangulation, k interior centreline points, points tolerance/2 on both sides of up to k "
+        "boundary edges of every top-level element, centroids of the drivable region's triangulation) and judged by an independent "
+        "containment oracle (own STR-tree, exact distances); centreline-segment midpoints for tangency. (B) every operation sequence "
+        "of length <= depth over the 17-letter alphabet of models/cache_c20.py is executed on a private copy of the map; every load is "
+        "judged (network == fresh parse of the predicted (map version, options), parser-call count allowed by the model, cache file "
+        "effects); plus a single-byte-increment sweep over the cache file. distinct_nontrivial = relation kinds with >= 1 judged link "
+        "+ distinct (cache class, outcome) pairs observed at loads",
+        samples=samples + [{"cache_trace": ["loadA", "editG", "loadA"], "model": "absent -> valid((0,0),A) -> stale -> parser must run, network == fresh(g1, A)"}],
+        states=len(states),
+        transitions=len(trans),
+        traces_validated_against_impl=traces,
+        model_reachable_states=len(model_states),
+        model_reachable_transitions=len(model_trans),
+        networks_built=nets,
+        elements_visited=cnt_total.get("elements", 0),
+        probes=cnt_total.get("probes", 0),
+        links_checked_per_relation=dict(sorted(rel_total.items())),
+        skipped_touching=cnt_total.get("skipped_touching", 0),
+        counters={k: v for k, v in sorted(cnt_total.items()) if k not in ("elements", "probes", "skipped_touching")},
+        cache_load_outcomes=dict(sorted(tally.items())),
+        corruption_sweep={"cache_bytes": size, "positions": len(positions), "stride": P["sweep_stride"], "outcomes": dict(sorted(sweep_out.items()))},
+        variants={"total": variants_total, "built_and_judged": variants_built, "not_built_by_deleted_tag_and_exception": dict(unbuilt)},
+        maps=sorted(per_map),
+        empty_maps_skipped=empty,
+        per_map_seconds=per_map,
+        one_sided_road_to_road_links_reported_not_judged=one_sided,
+        worst_child_vertex_excess_over_tolerance=round(worst_excess, 4),
+        worst_tangent_error_rad=worst_tan,
+        bounds={"tier": ctx.tier, **P, "option_combos": len(option_combos(ctx.tier)), "cache_map": CACHE_MAP, "sweep_map": SWEEP_MAP, "alphabet": list(cm.ALPHABET)},
+        seconds={"references": round(t_refs, 1), "cache_exploration_cpu": round(cache_secs, 1)},
+    )
+    ctx.assumptions += [
+        "Scenic's within-tolerance test uses point.buffer(tolerance), a 64-gon inscribed in the disc: probes whose distance to a candidate lies in (cos(pi/64), 1] x tolerance are skipped as touching",
+        "road-to-road lane links declared on one side only in the map are reported (one_sided_road_to_road_links) but not judged: no docstring promises that the parser completes them; links Scenic derives itself (junction connections, ownership, adjacency) are judged strictly",
+        "elementAt: any containing top-level element is accepted in the exact pass; the documented priority Intersection>Road>Shoulder>Sidewalk is demanded in the tolerance pass",
+        "the OpenDRIVE parser is deterministic within one process (checked: two fresh parses of the cache map are identical)",
+        f"empty map files skipped: {empty}",
+    ]
+    if one_sided:
+        ctx.notes.append(f"one-sided road-to-road lane links (reported, not judged): {one_sided}")
+    ctx.notes.append(f"cache load outcomes: {dict(sorted(tally.items()))}")
+    ctx.notes.append(f"corruption sweep outcomes: {dict(sorted(sweep_out.items()))}")
+
+
+def replay(ctx, case):
+    rundir = SCRATCH / f"replay-{os.getpid()}-{uuid.uuid4().hex[:8]}"
+    rundir.mkdir(parents=True)
+    RUNDIR[0] = str(rundir)
+    try:
+        install_parse_counter()
+        want = case.get("signature")
+        if case["part"] == "graph":
+            v = case.get("variant")
+            r = graph_item_rt((case["map"], case["opts"], v, case["tier"], case.get("dense", False), case.get("rt", False)))
+            for sig, desc, c in r["viol"]:
+                if want is None or sig == want:
+                    ctx.violation(sig, desc, c)
+                    break
+        elif case["part"] == "cache":
+            prepare_refs(case["map"], rundir)
+            rig = Rig(case["map"], rundir)
+            try:
+                trace = []
+                for op in case["trace"]:
+                    trace = trace + [op]
+                    rig.do(op, trace)
+            finally:
+                rig.close()
+            for sig, desc, c in rig.viol:
+                if want is None or sig == want:
+                    ctx.violation(sig, desc, c)
+                    break
+        elif case["part"] == "sweep":
+            import base64
+
+            prepare_refs(case["map"], rundir)
+            d = rundir / "sweep"
+            d.mkdir()
+            (d / "m.xodr").write_bytes(REFS[case["map"]]["contents"][(0, 0)])
+            out, viol = collections.Counter(), []
+            judge_damaged_cache(case["map"], d / "m.xodr", d / "m.snet", base64.b64decode(case["cache_b64"]), case["pos"], out, viol)
+            for sig, desc, c in viol:
+                ctx.violation(sig, desc, c)
+        else:
+            raise HarnessError(f"unknown case {case}")
+    finally:
+        shutil.rmtree(rundir, ignore_errors=True)
+        RUNDIR[0] = None
